@@ -114,7 +114,8 @@ class C41(Prop):
     rule = ("random dimension 1-4, resolutions 2-5 per axis, dyadic boxes (85% with dyadic "
             "mesh size) times one exact power-of-two scale 2^-6..2^12 (function scaled "
             "inversely), boxes up to 2^8 cells away from the origin or anchored at the origin "
-            "(adaptive table then built with the default base point), scalar and vector-valued "
+            "(adaptive table then built with the default base point), 5% one-parameter tables with "
+            "mesh sizes below 1e-10, scalar and vector-valued "
             "(dim 2-3) multilinear coefficient tables with integer coefficients in [-5,5] "
             "(half of them affine), batches of 5-8 query points: cell interiors, interior grid "
             "lines, lower faces, UPPER faces and the upper corner (forced in every in-box case), "
@@ -128,8 +129,8 @@ class C41(Prop):
                "exact; outputs compared with |impl-model| <= 1e-9(1+|model|) inside Coq",
                "numpy floor division // on floats = floor of the exact quotient (dyadic data)"]
     assumptions = ["low < high and npt >= 2 on every axis (h=0 / a one-point axis divides by zero "
-                   "in the code)", "mesh sizes between 2^-9 and 2^15 (well above the absolute 1e-10 "
-                   "coordinate tolerance of the adaptive table)"]
+                   "in the code)", "mesh sizes between 2^-9 and 2^15, plus one-parameter tables with mesh sizes "
+                   "2^-33..2^-43 (below the 1e-10 coordinate tolerance of intersect_sets)"]
 
     # ---------------------------------------------------------------- generation
     def _grid(self, rng):
@@ -142,6 +143,12 @@ class C41(Prop):
         # generate) and boxes away from the origin (offset up to 2^8 cells in dimension <= 2):
         # keeps the float evaluation well conditioned
         scale = Fr(2) ** rng.choice([0, 0, 0, -6, -3, 6, 12])
+        if rng.random() < 0.05:
+            # very fine one-parameter grids (mesh size below the 1e-10 coordinate tolerance used
+            # inside the adaptive table); one parameter, dyadic: exact in floats
+            d, dyadic_h, zero_low = 1, True, False
+            npt = [rng.randint(2, 5)]
+            scale = Fr(2) ** rng.choice([-34, -36, -40])
         for i in range(d):
             lo = Fr(rng.randint(-16, 16), rng.choice([1, 2, 4]))
             if d <= 2 and rng.random() < 0.2:
@@ -376,8 +383,6 @@ class C41(Prop):
 
     # ---------------------------------------------------------------- tie
     def coq_case(self, case, res):
-        if self._has_assert(res) and self._illcond(case):
-            return None     # open known finding (float rounding vs the 1e-13 assertion band)
         d = case["d"]
         q = lambda v: cq(_fr(v))
         pts = case["pts"]
@@ -415,26 +420,9 @@ class C41(Prop):
     def nontrivial(self, case, res):
         return case["kind"] == "inbox" and any(self._on_upper(case, p) for p in case["pts"])
 
-    KEY_ASSERT = ("InterpolationTable: weight sanity assertion (absolute 1e-13) fails on boxes far "
-                  "from the origin relative to a non-dyadic mesh size")
-
-    def _illcond(self, case):
-        """box offset / mesh size >= 64 on some axis and a mesh size that is not a dyadic number"""
-        for lo, hi, n in zip(case["low"], case["high"], case["npt"]):
-            h = (_fr(hi) - _fr(lo)) / (n - 1)
-            dyadic = (h.denominator & (h.denominator - 1)) == 0
-            if not dyadic and max(abs(_fr(lo)), abs(_fr(hi))) / h >= 64:
-                return True
-        return False
-
-    def _has_assert(self, res):
-        return any(o[0] == "err" and o[1] == "AssertErr"
-                   for c in res["comps"] for o in [c["interp"], c["single"]] + c["grads"]) \
-            or res.get("aerr") == "AssertionError"
-
     def finding_key(self, case, res, why):
-        if ("AssertErr" in why or "AssertionError" in why) and self._illcond(case):
-            return self.KEY_ASSERT
+        if "AssertErr" in why or "AssertionError" in why:
+            return "InterpolationTable: weight sanity assertion rejects a point of the box"
         if case.get("tiny") and "adaptive" in why:
             return "AdaptiveInterpolationTable: mesh size near the absolute 1e-10 coordinate tolerance"
         up = any(self._on_upper(case, p) for p in case["pts"])
